@@ -178,7 +178,8 @@ def epsalg_scales(ctx, N):
         for i in range(0, len(seq), 2):          # after an odd number of terms the highest even-order entry is epsilon_{i}^{(0)}
             if ex[i] is None:
                 break
-            if abs(Fraction(vals[i]) - ex[i]) > Fraction(1, 10 ** 4) * (abs(ex[i]) + cond * Fraction(1, 10 ** 6)):
+            # (the k = 4 table is ill-conditioned: a few digits are lost legitimately; the failures of interest are gross)
+            if abs(Fraction(vals[i]) - ex[i]) > Fraction(1, 10 ** 3) * abs(ex[i]) + Fraction(1, 10 ** 5) * cond:
                 ctx.violation('epsalg-table', 'EpsAlg after %d terms of a sequence of magnitude %.3g returns %r, the exact epsilon table entry of order %d is %r' % (
                     i + 1, float(cond), vals[i], i, float(ex[i])), desc)
                 return
